@@ -41,7 +41,20 @@ func (g *gen) num(w int, signed bool) *big.Int {
 	bits := 8 * w
 	max := new(big.Int).Sub(new(big.Int).Lsh(big.NewInt(1), uint(bits)), big.NewInt(1))
 	var x *big.Int
-	switch g.r.Intn(8) {
+	switch g.r.Intn(10) {
+	case 8, 9:
+		// IEEE 754 corner patterns (a float32/float64 field carries its bit pattern): signalling and quiet NaNs with
+		// payloads, infinities, -0, smallest denormal - conversions between float widths do not preserve all of them
+		switch {
+		case w == 4:
+			x = new(big.Int).SetUint64(uint64([]uint32{0x7f800001, 0x7fa00000, 0xff800001, 0x7fbfffff, 0x7fc00000, 0xffc00001, 0x7f800000,
+				0xff800000, 0x80000000, 0x00000001, 0x807fffff}[g.r.Intn(11)]))
+		case w == 8:
+			x = new(big.Int).SetUint64([]uint64{0x7ff0000000000001, 0x7ff4000000000000, 0xfff0000000000001, 0x7ff7ffffffffffff,
+				0x7ff8000000000000, 0xfff8000000000001, 0x7ff0000000000000, 0xfff0000000000000, 0x8000000000000000, 1, 0x800fffffffffffff}[g.r.Intn(11)])
+		default:
+			x = g.bigBits(bits)
+		}
 	case 0:
 		x = big.NewInt(0)
 	case 1:
